@@ -190,6 +190,124 @@ pub fn check_string(s: &str, obs: &mut Obs) {
     obs.done(nontrivial);
 }
 
+// ---------------------------------------------------------------- include chains on disk
+//
+// main.qasm -> a.inc -> b.inc (depth 1..=3), every file with semantic faults on non-ASCII
+// identifiers at different offsets and of very different lengths.  Every diagnostic list (the main
+// one and, recursively, the lists of included files) names a file; each of its diagnostics must be
+// the range of a node of *that* file's tree.
+
+fn collect_files<'a, T: SourceTrait>(src: &'a T, out: &mut Vec<&'a oq3_source_file::SourceFile>) {
+    for f in src.included() {
+        out.push(f);
+        collect_files(f, out);
+    }
+}
+
+fn check_lists_against_files(list: &SemanticErrorList, files: &[&oq3_source_file::SourceFile], what: &str, o: &mut Obs, seen: &mut usize) {
+    for inc in list.include_errors() {
+        let path = inc.source_file_path();
+        let canon = std::fs::canonicalize(path).unwrap_or_else(|_| path.clone());
+        let file = files.iter().find(|f| std::fs::canonicalize(f.file_path()).unwrap_or_else(|_| f.file_path().to_path_buf()) == canon);
+        match file {
+            None => {
+                if !inc.is_empty() {
+                    o.violate(
+                        "semantic-list-names-no-included-file".to_string(),
+                        format!("{what}: a list with {} diagnostics is filed under {path:?}, which is not one of the included files", inc.len()),
+                    );
+                }
+            }
+            Some(f) => {
+                let text = std::fs::read_to_string(f.file_path()).unwrap_or_default();
+                let root = f.syntax_ast().filter(|a| a.have_parse()).map(|a| a.syntax_node());
+                *seen += inc.len();
+                check_semantic_list(inc, &text, root.as_ref(), "included-file", what, o);
+            }
+        }
+        check_lists_against_files(inc, files, what, o, seen);
+    }
+}
+
+fn include_chain_case(seed: u64, obs: &mut Obs) {
+    let mut r = Rng::new(seed);
+    let depth = r.range(1, 3) as usize;
+    let base = std::env::current_dir().unwrap_or_else(|_| std::path::PathBuf::from("."));
+    let dir = base.join("fs").join(format!("c12-{}-{seed:x}", std::process::id()));
+    let _ = std::fs::create_dir_all(&dir);
+    let dir = std::fs::canonicalize(&dir).unwrap_or(dir);
+    let names = ["main.qasm", "a.inc", "b.inc", "c.inc"];
+    let mut texts: Vec<String> = Vec::new();
+    for lvl in 0..=depth {
+        let mut t = String::new();
+        // the deeper the file, the longer its preamble: offsets in it exceed the parents' lengths
+        for k in 0..(lvl * r.range(2, 6) as usize) {
+            t.push_str(&format!("// padding line {k} of level {lvl} äöü\nint[32] pad_{lvl}_{k} = {k};\n"));
+        }
+        if lvl < depth && r.bool() {
+            t.push_str(&format!("include \"{}\";\n", names[lvl + 1]));
+        }
+        let nf = r.range(if lvl == 0 { 0 } else { 1 }, 3);
+        for k in 0..nf {
+            match r.below(3) {
+                0 => t.push_str(&format!("int[32] d{lvl}_{k} = unerklärt_{lvl}_{k} + 1;\n")),
+                1 => t.push_str(&format!("gätchen_{lvl}_{k} $0;\n")),
+                _ => t.push_str(&format!("int[8] twice_{lvl};\n")),
+            }
+        }
+        if lvl < depth && !t.contains("include") {
+            t.push_str(&format!("include \"{}\";\n", names[lvl + 1]));
+        }
+        texts.push(t);
+    }
+    for (lvl, t) in texts.iter().enumerate() {
+        let _ = std::fs::write(dir.join(names[lvl]), t);
+    }
+    obs.fp.u64(seed);
+    let main_path = dir.join(names[0]);
+    let via_file = r.bool();
+    let what = format!("chain of depth {depth} in {dir:?} ({})", if via_file { "parse_source_file" } else { "parse_source_string_with_path_search" });
+    let r2 = guard(|| {
+        let mut o = Obs::default();
+        let mut seen = 0usize;
+        if via_file {
+            let res = oq3_semantics::syntax_to_semantics::parse_source_file_with_search(&main_path, Some(&[dir.clone()]));
+            let mut files = Vec::new();
+            collect_files(res.syntax_result(), &mut files);
+            let root = res.syntax_result().syntax_ast().filter(|a| a.have_parse()).map(|a| a.syntax_node());
+            check_semantic_list(res.semantic_errors(), &texts[0], root.as_ref(), "main-file", &what, &mut o);
+            seen += res.semantic_errors().len();
+            check_lists_against_files(res.semantic_errors(), &files, &what, &mut o, &mut seen);
+        } else {
+            let res = oq3_semantics::syntax_to_semantics::parse_source_string_with_path_search(texts[0].as_str(), Some("main.qasm"), Some(&[dir.clone()]));
+            let mut files = Vec::new();
+            collect_files(res.syntax_result(), &mut files);
+            let root = res.syntax_result().syntax_ast().filter(|a| a.have_parse()).map(|a| a.syntax_node());
+            check_semantic_list(res.semantic_errors(), &texts[0], root.as_ref(), "main-file", &what, &mut o);
+            seen += res.semantic_errors().len();
+            check_lists_against_files(res.semantic_errors(), &files, &what, &mut o, &mut seen);
+        }
+        (o, seen)
+    });
+    let _ = std::fs::remove_dir_all(&dir);
+    match r2 {
+        Err(p) => obs.inconclusive(format!("analysis panicked (C03/C18): {}", p.site())),
+        Ok((o, seen)) => {
+            for v in o.violations {
+                obs.violate(v.cell, v.detail);
+            }
+            for (k, v) in o.counts {
+                obs.count_n(&k, v);
+            }
+            if seen > 0 {
+                obs.class("semantic-diagnostics-in-included-files");
+            }
+            obs.note = format!("{what}: {seen} semantic diagnostics checked against the files they are filed under");
+            obs.done(seen > 0);
+        }
+    }
+}
+
 const SUBST: &[&str] = &["§", "\0", "a😀b", "while", "\"", "θ"];
 
 fn substitution_count() -> u64 {
@@ -259,6 +377,7 @@ impl Property for C12 {
             }
         }
         v.push(Stream::new("single-token-substitutions", substitution_count(), true, |i| format!("s:{}", substitution_case(i))));
+        v.push(Stream::new("include-chains-with-semantic-faults", tier.pick(1_500, 50_000), false, move |i| format!("inc:{}", mix(&[seed, 0xC12, 12, i]))));
         v.push(Stream::new("semantic-faults-non-ascii", tier.pick(20_000, 1_000_000), false, move |i| {
             let mut r = Rng::new(mix(&[seed, 0xC12, 11, i]));
             format!("s:{}", semantic_fault_program(&mut r))
@@ -269,6 +388,10 @@ impl Property for C12 {
         if let Some(s) = input.strip_prefix("s:") {
             check_string(s, obs);
             obs.note = format!("{} bytes: all diagnostic spans valid", s.len());
+            return;
+        }
+        if let Some(rest) = input.strip_prefix("inc:") {
+            include_chain_case(rest.parse().unwrap_or(0), obs);
             return;
         }
         if let Some(rest) = input.strip_prefix("seq:") {
@@ -309,6 +432,6 @@ impl Property for C12 {
         obs.inconclusive("unrecognised input spec");
     }
     fn mandatory_classes(&self, _tier: Tier) -> Vec<&'static str> {
-        vec!["tree-with-error-element", "lexical-errors-only", "semantic-diagnostics-observed"]
+        vec!["tree-with-error-element", "lexical-errors-only", "semantic-diagnostics-observed", "semantic-diagnostics-in-included-files"]
     }
 }
